@@ -153,7 +153,17 @@ def _run_path(job):
         op = e["op"]
         try:
             s = op["s"] - 1
-            if op["op"] == "AddEmpty":
+            if op["op"] == "RejectedUpdate":
+                r = sets[s][NAME][-1]
+                try:
+                    if typ == "RATIO":
+                        r.update(1)                     # no total
+                    else:
+                        r.update(NCHOICE + 4)           # no such choice
+                    return okc, {"step": i, "op": op, "what": "an invalid observation was accepted", "fid": None}
+                except (ValueError, AssertionError, IndexError):
+                    pass
+            elif op["op"] == "AddEmpty":
                 sets[s] = SimulationResults()
                 sets[s].add_result(Result(NAME, tc, accumulate_values=acc, choice_num=NCHOICE if typ == "CHOICE" else None))
                 sets[s].add_result(Result(OTHER, Result.SUMTYPE))
@@ -280,7 +290,7 @@ def run(ctx):
             r.out = ""
         del runs
     if not thorough:
-        ctx.require_actions(["AddNew", "AddEmpty", "UpdateLast", "MergeRes", "MergeAll", "AppendAll"])
+        ctx.require_actions(["AddNew", "AddEmpty", "UpdateLast", "RejectedUpdate", "MergeRes", "MergeAll", "AppendAll"])
     ctx.exhaustive = True
     from . import c06_combine
     c06_combine.run(ctx)
